@@ -81,6 +81,12 @@ def _attach_pdo(node, drive, event=False):
     t.cob_id = 0x183
     t.enabled = True
     t.trans_type = 255 if event else 1    # 1: synchronous => "periodic": check_statusword waits for reception
+    if event:
+        # the RPDO is event-driven as well; its event timer (the drive's deadline monitoring of the master, as read from
+        # 0x1400:05) may hold any value: nobody sends an RPDO because of it
+        r.trans_type = 255
+        r.event_timer = sx.fresh_int("rpdo_event_timer", 0, 0xFFFF)
+        r.inhibit_time = sx.fresh_int("rpdo_inhibit", 0, 0xFFFF)
     node.setup_pdos(upload=False)
     if event:
         # automatic transitions are events too: the drive reports them when asked by SDO
@@ -101,6 +107,35 @@ def _attach_pdo(node, drive, event=False):
         sx.env().delivery_hook = hook
     net.notify(0x183, _le(drive.statusword(), 2), 1.0)
     return net
+
+
+def late_sdo_answer(initial):
+    """event-driven statusword TPDO: while the library polls 0x6041 by SDO (check_statusword), the drive faults and its
+    TPDO with the new statusword overtakes the SDO answer.  Afterwards the reported state is the one of the newest
+    statusword received - the drive's present state - not the older reading."""
+    node = _node()
+    drive = D.Drive(initial)
+    sx.env().tick = 0.02
+    net = _attach_pdo(node, drive, event=True)
+    inner = node.sdo.upload
+    fired = []
+
+    def upload(index, subindex):
+        ans = inner(index, subindex)
+        if index == 0x6041 and not fired:
+            fired.append(1)
+            drive._go(D.FAULT)                                   # the answer is under way; now the drive faults
+            net.notify(0x183, _le(drive.statusword(), 2), sx.env().now)
+        return ans
+    node.sdo.upload = upload
+    key = "C19/late-sdo-answer/%s" % initial
+    try:
+        node.check_statusword()
+    except Exception as e:
+        sx.observe("exc", C.exc_name(e))
+    if fired:
+        sx.prove(node.state == "FAULT", "the reported state is older than the last statusword received", key + "/state")
+        sx.reach("late-sdo-answer")
 
 
 def decode():
@@ -430,6 +465,8 @@ def op_mode_pdo(first, second, layout="shared"):
 
 def jobs(tier):
     out = [dict(func="decode", params={})]
+    for ini in ("OPERATION ENABLED", "SWITCHED ON", "READY TO SWITCH ON"):
+        out.append(dict(func="late_sdo_answer", params=dict(initial=ini)))
     for mode in ("PROFILED POSITION", "CYCLIC SYNCHRONOUS TORQUE", "HOMING"):
         for described in ("default", "value"):
             out.append(dict(func="op_mode", params=dict(mode=mode, described=described)))
@@ -483,7 +520,7 @@ META = dict(
     assumptions=["a status read is the only point where an automatic transition becomes visible"],
     stubs=["struct", "time.monotonic", "threading.Condition", "sdo.upload/download replaced on the instance (framing is "
            "C01's business)", "Network.send_message replaced on the instance"],
-    required_reach=["mode-described", "decode-unknown"] + ["decode-" + s for s in D.ALL_STATES] +
+    required_reach=["mode-described", "late-sdo-answer", "decode-unknown"] + ["decode-" + s for s in D.ALL_STATES] +
                    ["refused", "commanded", "bad-target-refused", "mode-refused", "mode-set", "sequence", "mode-pdo", "mode-pdo-set", "mode-pdo-refused", "mode-retry", "mode-retry-refused", "mode-unknown"],
     limits=dict(quick=dict(max_decisions=20000), thorough=dict(max_decisions=20000, crosscheck_every=2, crosscheck_max=30)),
     validate_every=dict(quick=2, thorough=1),
